@@ -74,16 +74,37 @@ def _is_self_attr(e):
     return isinstance(e, ast.Attribute) and isinstance(e.value, ast.Name) and e.value.id == "self"
 
 
+_IMPORTS = frozenset()       # import names of the module of the function being built (set by CFG.__init__)
+_TOTAL_BUILTINS = ("isinstance", "type", "callable", "id")
+
+
+def _module_attr(n):
+    """attribute chain rooted at a module-level import name (utils.DictType, jsonrpclib.config.DEFAULT)"""
+    while isinstance(n, ast.Attribute):
+        n = n.value
+    return isinstance(n, ast.Name) and n.id in _IMPORTS
+
+
 def expr_may_raise(e):
-    """Conservative default: an expression may raise if it contains a call, a
-    subscript, an attribute load on a non-self value, arithmetic, a comparison
-    other than is / is not, or a yield."""
+    """Conservative default: an expression may raise if it contains a call (other than the total
+    builtins isinstance/type/callable/id), a subscript, an attribute load on a value other than self
+    or an imported module, arithmetic, a comparison other than is / is not, or a yield."""
     if e is None:
         return False
+    skip = set()
     for n in ast.walk(e):
+        if id(n) in skip:
+            continue
+        if isinstance(n, ast.Call) and isinstance(n.func, ast.Name) and n.func.id in _TOTAL_BUILTINS and not n.keywords:
+            skip.add(id(n.func))
+            continue
         if isinstance(n, (ast.Call, ast.Subscript, ast.BinOp, ast.Yield, ast.YieldFrom, ast.Await,
                           ast.Starred, ast.JoinedStr)):
             return True
+        if isinstance(n, ast.Attribute) and _module_attr(n):
+            for sub in ast.walk(n):
+                skip.add(id(sub))
+            continue
         if isinstance(n, ast.Attribute) and not _is_self_attr(n):
             return True
         if isinstance(n, ast.Compare) and not all(isinstance(o, (ast.Is, ast.IsNot)) for o in n.ops):
@@ -135,6 +156,8 @@ class CFG(object):
         self.succ = {}
         self.pred = {}
         self._may_raise_stmt = may_raise or stmt_may_raise
+        global _IMPORTS
+        _IMPORTS = getattr(fi, "import_names", frozenset())
         self.entry = self._new("entry", fi.node)
         self.entry.defs = tuple(fi.params)
         self.return_exit = self._new("return_exit")
@@ -465,11 +488,12 @@ def node_calls(n):
     return out
 
 
-_cache = {}
-
-
 def cfg_of(fi, may_raise=None):
-    key = (id(fi.node), may_raise)
-    if key not in _cache:
-        _cache[key] = CFG(fi, may_raise)
-    return _cache[key]
+    """CFG of a function, cached on the FuncInfo itself (never on id(): ids are reused across programs)."""
+    if may_raise is not None:
+        return CFG(fi, may_raise)
+    g = getattr(fi, "_cfg", None)
+    if g is None:
+        g = CFG(fi)
+        fi._cfg = g
+    return g
